@@ -1,7 +1,122 @@
-(* C03 — pipeline placeholder; replaced by the real statements *)
-From Gdsl.Model Require Import Base NodeOps.
-From Gdsl.Proofs Require Import NodeLemmas.
+(* C03 — Edge operations implement the multigraph contract (all four flavours: the model has one
+   definition per flavour CLASS; plain/sync equality is C15's correspondence).
+   Every statement is for an arbitrary heap satisfying Inv and arbitrary operands, u = v included. *)
+From Gdsl.Model Require Import Spec.
+From Gdsl.Proofs Require Import NodeD NodeU.
 
-Theorem C03_placeholder_to_nil : forall (E : Type) v, to_ v (@nil (nat * E)) = [].
-Proof. exact to_nil. Qed.
-Print Assumptions C03_placeholder_to_nil.
+(* connect: exactly one new edge, last among the source's outgoing and the target's incoming edges
+   (for undirected: last outbound half at the caller, last inbound half at the callee); nothing else changes *)
+Theorem c03_connect :
+  forall (K V E : Type) (h : heap K V E) (u v : nat) (e : E),
+    nodes (connect h u v e) = nodes h /\
+    outs (connect h u v e) u = outs h u ++ [(v, e)] /\
+    ins (connect h u v e) v = ins h v ++ [(u, e)] /\
+    (forall w : nat, w <> u -> outs (connect h u v e) w = outs h w) /\
+    (forall w : nat, w <> v -> ins (connect h u v e) w = ins h w).
+Proof. exact connect_spec. Qed.
+Print Assumptions c03_connect.
+
+Theorem c03_connect_inv :
+  forall (K V E : Type) (h : heap K V E) (u v : nat) (e : E),
+    Inv h -> u < size h -> v < size h -> Inv (connect h u v e).
+Proof. exact connect_inv. Qed.
+Print Assumptions c03_connect_inv.
+
+(* try_connect: as connect iff the caller has no edge to the other node yet, else EdgeAlreadyExists and nothing changes *)
+Theorem c03_try_connect_directed :
+  forall (K V E : Type) (keqb : K -> K -> bool), KeqbSpec keqb ->
+  forall (h : heap K V E) (u v : nat) (e : E), Inv h -> u < size h -> v < size h ->
+    (exists e' : E, In (v, e') (outs h u)) /\ try_connect_d keqb h u v e = (h, ErrExists) \/
+    (forall e' : E, ~ In (v, e') (outs h u)) /\ try_connect_d keqb h u v e = (connect h u v e, OkU).
+Proof. exact try_connect_d_spec. Qed.
+Print Assumptions c03_try_connect_directed.
+
+Theorem c03_try_connect_undirected :
+  forall (K V E : Type) (keqb : K -> K -> bool), KeqbSpec keqb ->
+  forall (h : heap K V E) (u v : nat) (e : E), Inv h -> u < size h -> v < size h ->
+    (exists e' : E, In (v, e') (adj_u h u)) /\ try_connect_u keqb h u v e = (h, ErrExists) \/
+    (forall e' : E, ~ In (v, e') (adj_u h u)) /\ try_connect_u keqb h u v e = (connect h u v e, OkU).
+Proof. exact try_connect_u_spec. Qed.
+Print Assumptions c03_try_connect_undirected.
+
+(* disconnect: EdgeNotFound and nothing changes, or exactly one edge between the pair is removed at
+   both endpoints, its value is returned, every remaining sequence keeps its order *)
+Theorem c03_disconnect_directed :
+  forall (K V E : Type) (keqb : K -> K -> bool), KeqbSpec keqb ->
+  forall (h : heap K V E) (u : nat) (k : K), Inv h -> u < size h ->
+    (forall (v : nat) (e : E), In (v, e) (outs h u) -> keyof h v <> Some k) /\
+    disconnect_d keqb h u k = (h, ErrNotFound) \/
+    (exists (v : nat) (e : E) (l1 l2 m1 m2 : list (nat * E)) (h' : heap K V E),
+        keyof h v = Some k /\
+        outs h u = l1 ++ (v, e) :: l2 /\ (forall x : nat * E, In x l1 -> fst x <> v) /\
+        ins h v = m1 ++ (u, e) :: m2 /\ (forall x : nat * E, In x m1 -> fst x <> u) /\
+        disconnect_d keqb h u k = (h', OkE e) /\
+        nodes h' = nodes h /\ outs h' u = l1 ++ l2 /\ ins h' v = m1 ++ m2 /\
+        (forall w : nat, w <> u -> outs h' w = outs h w) /\
+        (forall w : nat, w <> v -> ins h' w = ins h w) /\ Inv h').
+Proof. exact disconnect_d_spec. Qed.
+Print Assumptions c03_disconnect_directed.
+
+Theorem c03_disconnect_undirected :
+  forall (K V E : Type) (keqb : K -> K -> bool), KeqbSpec keqb ->
+  forall (h : heap K V E) (u : nat) (k : K), Inv h -> u < size h ->
+    (forall (v : nat) (e : E), In (v, e) (adj_u h u) -> keyof h v <> Some k) /\
+    disconnect_u keqb h u k = (h, ErrNotFound) \/
+    (exists (v : nat) (e : E) (h' : heap K V E),
+        keyof h v = Some k /\ disconnect_u keqb h u k = (h', OkE e) /\ nodes h' = nodes h /\ Inv h' /\
+        ((exists l1 l2 m1 m2 : list (nat * E),
+            ins h u = l1 ++ (v, e) :: l2 /\ (forall x : nat * E, In x l1 -> fst x <> v) /\
+            outs h v = m1 ++ (u, e) :: m2 /\ (forall x : nat * E, In x m1 -> fst x <> u) /\
+            ins h' u = l1 ++ l2 /\ outs h' v = m1 ++ m2 /\
+            (forall w : nat, w <> u -> ins h' w = ins h w) /\
+            (forall w : nat, w <> v -> outs h' w = outs h w)) \/
+         (forall x : nat * E, In x (ins h u) -> fst x <> v) /\
+         (exists l1 l2 m1 m2 : list (nat * E),
+            outs h u = l1 ++ (v, e) :: l2 /\ (forall x : nat * E, In x l1 -> fst x <> v) /\
+            ins h v = m1 ++ (u, e) :: m2 /\ (forall x : nat * E, In x m1 -> fst x <> u) /\
+            outs h' u = l1 ++ l2 /\ ins h' v = m1 ++ m2 /\
+            (forall w : nat, w <> u -> outs h' w = outs h w) /\
+            (forall w : nat, w <> v -> ins h' w = ins h w)))).
+Proof. exact disconnect_u_spec. Qed.
+Print Assumptions c03_disconnect_undirected.
+
+(* isolate: never panics, terminates within the fuel the model gives it (S (list length)), and removes
+   exactly the edges incident to the node: every list becomes the old list without entries at u *)
+Theorem c03_isolate_directed :
+  forall (K V E : Type) (keqb : K -> K -> bool), KeqbSpec keqb ->
+  forall (h : heap K V E) (u : nat), Inv h -> u < size h ->
+    exists h' : heap K V E,
+      isolate_d keqb h u = (h', OkU) /\ nodes h' = nodes h /\
+      (forall w : nat, outs h' w = (if Nat.eqb w u then [] else filter (fun p : nat * E => negb (Nat.eqb (fst p) u)) (outs h w))) /\
+      (forall w : nat, ins h' w = (if Nat.eqb w u then [] else filter (fun p : nat * E => negb (Nat.eqb (fst p) u)) (ins h w))) /\
+      Inv h'.
+Proof. exact isolate_d_spec. Qed.
+Print Assumptions c03_isolate_directed.
+
+Theorem c03_isolate_undirected :
+  forall (K V E : Type) (keqb : K -> K -> bool), KeqbSpec keqb ->
+  forall (h : heap K V E) (u : nat), Inv h -> u < size h ->
+    exists h' : heap K V E,
+      isolate_u keqb h u = (h', OkU) /\ nodes h' = nodes h /\
+      (forall w : nat, outs h' w = (if Nat.eqb w u then [] else filter (fun p : nat * E => negb (Nat.eqb (fst p) u)) (outs h w))) /\
+      (forall w : nat, ins h' w = (if Nat.eqb w u then [] else filter (fun p : nat * E => negb (Nat.eqb (fst p) u)) (ins h w))) /\
+      Inv h'.
+Proof. exact isolate_u_spec. Qed.
+Print Assumptions c03_isolate_undirected.
+
+(* no call panics on live nodes, and each keeps the invariant (so the contract composes over histories) *)
+Theorem c03_step_directed :
+  forall (K V E : Type) (keqb : K -> K -> bool), KeqbSpec keqb ->
+  forall (h : heap K V E) (o : op K V E), Inv h ->
+    (forall (k : K) (x : V), o = ONew k x -> forall w : nat, keyof h w <> Some k) ->
+    Inv (fst (step_d keqb h o)) /\ snd (step_d keqb h o) <> Panic.
+Proof. exact step_d_inv. Qed.
+Print Assumptions c03_step_directed.
+
+Theorem c03_step_undirected :
+  forall (K V E : Type) (keqb : K -> K -> bool), KeqbSpec keqb ->
+  forall (h : heap K V E) (o : op K V E), Inv h ->
+    (forall (k : K) (x : V), o = ONew k x -> forall w : nat, keyof h w <> Some k) ->
+    Inv (fst (step_u keqb h o)) /\ snd (step_u keqb h o) <> Panic.
+Proof. exact step_u_inv. Qed.
+Print Assumptions c03_step_undirected.
